@@ -1,0 +1,24 @@
+//go:build verif
+
+package auth
+
+// Contracts checked by /verif/govc (see /verif/DESIGN.md). Comment-only file.
+
+// urlok abstracts the URL comparison (exact / request-URI / SETUP base-URL rule); Verify's
+// contract only states that acceptance implies it held for the received URI.
+//@ ufun urlok(e *base.URL, r string, s bool) bool
+
+//@ func urlMatches
+//@   ensures ret == urlok(expected, received, isSetup)
+//@   modifies nothing
+
+//@ spec enabled(methods []VerifyMethod, m VerifyMethod) bool = (methods == nil && (m == VerifyMethodBasic || m == VerifyMethodDigestMD5)) || (exists i :: 0 <= i && i < len(methods) && methods[i] == m)
+
+// Soundness (C10): acceptance implies that every field the credentials were computed
+// for equals what the server expects and that the scheme/algorithm is enabled.
+//@ func Verify
+//@   ensures[C10] err == nil ==> auth.Method == headers.AuthMethodDigest || auth.Method == headers.AuthMethodBasic
+//@   ensures[C10] err == nil && auth.Method == headers.AuthMethodBasic ==> enabled(old(methods), VerifyMethodBasic) && auth.Username == user && auth.BasicPass == pass
+//@   ensures[C10] err == nil && auth.Method == headers.AuthMethodDigest ==> auth.Nonce == nonce && auth.Realm == realm && auth.Username == user && urlok(req.URL, auth.URI, req.Method == base.Setup)
+//@   ensures[C10] err == nil && auth.Method == headers.AuthMethodDigest && (auth.Algorithm == nil || *auth.Algorithm == headers.AuthAlgorithmMD5) ==> enabled(old(methods), VerifyMethodDigestMD5) && auth.Response == md5spec(md5spec(user+":"+realm+":"+pass) + ":" + nonce + ":" + md5spec(string(req.Method)+":"+auth.URI))
+//@   ensures[C10] err == nil && auth.Method == headers.AuthMethodDigest && auth.Algorithm != nil && *auth.Algorithm != headers.AuthAlgorithmMD5 ==> *auth.Algorithm == headers.AuthAlgorithmSHA256 && enabled(old(methods), VerifyMethodDigestSHA256) && auth.Response == sha256spec(sha256spec(user+":"+realm+":"+pass) + ":" + nonce + ":" + sha256spec(string(req.Method)+":"+auth.URI))
